@@ -9,6 +9,7 @@ sys.path.insert(0, "lib")
 import driver
 driver.ensure_makefile()
 PY
-timeout 3000 make -C coq -j16 >/dev/null
-(cd harness && CARGO_TARGET_DIR=$PWD/target timeout 1800 cargo build --offline --release --quiet 2>/dev/null)
+timeout 3000 make -C coq -j16 >/tmp/verif_setup_make.log 2>&1 || { tail -30 /tmp/verif_setup_make.log; exit 1; }
+(cd harness && CARGO_TARGET_DIR=$PWD/target timeout 1800 cargo build --offline --release --quiet >/tmp/verif_setup_cargo.log 2>&1) || { tail -30 /tmp/verif_setup_cargo.log; exit 1; }
+(cd harness && CARGO_TARGET_DIR=$PWD/target-rayon timeout 1800 cargo build --offline --release --quiet --features rayon >/tmp/verif_setup_cargo2.log 2>&1) || { tail -30 /tmp/verif_setup_cargo2.log; exit 1; }
 echo setup ok
